@@ -19,6 +19,15 @@ MOD = "abtem.transfer"
 INF_NAMES = ("np.inf", "xp.inf", "math.inf", "numpy.inf")
 
 
+def _is_inf(node) -> bool:
+    """`<module>.inf` for any module-like receiver name (np/xp/math/a local bound to get_array_module(...))."""
+    import ast as _ast
+
+    if dotted(node) in INF_NAMES:
+        return True
+    return isinstance(node, _ast.Attribute) and node.attr == "inf" and isinstance(node.value, _ast.Name)
+
+
 # ---------------------------------------------------------------------------------------------
 def peel(df: DataFlow, at: int, e: ast.AST, depth: int = 0):
     """Follow shape-only wrappers and single definitions: returns (expression, node)."""
@@ -244,7 +253,7 @@ def _aperture_dispatch(ctx, repo, soft_scale):
     def is_inf_test(t):
         if isinstance(t, ast.Compare) and len(t.ops) == 1 and isinstance(t.ops[0], (ast.Eq, ast.NotEq)):
             for x, y in ((t.left, t.comparators[0]), (t.comparators[0], t.left)):
-                if dotted(y) in INF_NAMES and dotted(x) in ("self.semiangle_cutoff", "self._semiangle_cutoff"):
+                if _is_inf(y) and dotted(x) in ("self.semiangle_cutoff", "self._semiangle_cutoff"):
                     return isinstance(t.ops[0], ast.Eq)
         return None
 
@@ -438,7 +447,7 @@ def _ctf(ctx, repo):
     def finite_test(t):
         if isinstance(t, ast.Compare) and len(t.ops) == 1 and isinstance(t.ops[0], (ast.Eq, ast.NotEq)):
             for x, y in ((t.left, t.comparators[0]), (t.comparators[0], t.left)):
-                if dotted(y) in INF_NAMES and dotted(x) in ("self._aperture.semiangle_cutoff", "self.semiangle_cutoff",
+                if _is_inf(y) and dotted(x) in ("self._aperture.semiangle_cutoff", "self.semiangle_cutoff",
                                                             "self._semiangle_cutoff"):
                     return isinstance(t.ops[0], ast.NotEq)
         return None
